@@ -6,6 +6,7 @@ import textwrap
 import warnings
 
 import yaml
+from oslo_config import cfg
 from oslo_policy import generator, policy
 
 from .. import driver, fsharness, gen
@@ -125,8 +126,16 @@ def run(ctx, rep):
             try:
                 with warnings.catch_warnings():
                     warnings.simplefilter('ignore')
-                    generator._generate_sample(['ns'], output_file=out, exclude_deprecated=excl)
-                    generator._generate_sample(['ns'], output_file=outj, output_format='json')
+                    if case % 2 == 0:
+                        # the command as it is run (oslopolicy-sample-generator)
+                        generator.generate_sample(args=['--namespace', 'ns', '--output-file', out] +
+                                                  (['--exclude-deprecated'] if excl else []), conf=cfg.ConfigOpts())
+                        generator.generate_sample(args=['--namespace', 'ns', '--output-file', outj, '--format', 'json'],
+                                                  conf=cfg.ConfigOpts())
+                        rep.stat('sample_via_cli_entry')
+                    else:
+                        generator._generate_sample(['ns'], output_file=out, exclude_deprecated=excl)
+                        generator._generate_sample(['ns'], output_file=outj, output_format='json')
             except Exception as ex:       # every constructible default must be stated: generation may not fail
                 rep.fail('c17crash:%r' % [(s['name'], s['check_str']) for s in specs],
                          'generating the sample for %r (exclude_deprecated=%s) raises %s: %s'
